@@ -7,6 +7,16 @@ from vlib import q as Q
 from vlib.canon import close, err, proj_close, finite
 from geometry_tools import complex_projective as CP, projective as P, utils
 
+import builtins as _bi
+
+
+def max(*args, **kw):      # noqa: A001 - a NaN anywhere is a failure, never silently dropped by the comparison order
+    vals = list(args[0]) if len(args) == 1 else list(args)
+    if any(isinstance(v, (float, np.floating)) and v != v for v in vals):
+        return float("inf")
+    return _bi.max(vals, **kw)
+
+
 LEVEL = "proof"
 EXPLANATION = (
     "Lean (complex numbers as pairs over any ordered field, executed over Q(i)): spherical<->homogeneous coordinates are inverse "
@@ -278,9 +288,16 @@ def judge_disk(inp, obs, lr):
 # ------------------------------------------------------------------------------------------------
 # S2c: contains / intersects mask plumbing
 # ------------------------------------------------------------------------------------------------
+SPECIAL_C = [0j, 1 + 0j, -1 + 0j, 1j, -1j, 2 + 0j, 0.5j, -0.5 + 0j]
+
+
 def fdisk(rng, bounded=None):
     c = complex(rng.uniform(-3, 3), rng.uniform(-3, 3))
     r = rng.uniform(0.2, 3.0)
+    if rng.random() < 0.2:       # exact special loci mixed with generic ones: origin-centred, on the axes, unit radius
+        c = rng.choice(SPECIAL_C)
+    if rng.random() < 0.1:
+        r = rng.choice([1.0, 0.5, 2.0])
     b = (rng.random() < 0.5) if bounded is None else bounded
     return {"c": [c.real, c.imag], "r": r, "bounded": b}
 
@@ -427,8 +444,20 @@ def fs_dist(z, w):
 def gen_dsk(rng, n):
     for _ in range(n):
         k = rng.choice([1, 2, 4])
-        yield {"c": [[rng.uniform(-4, 4), rng.uniform(-4, 4)] if rng.random() > 0.1 else [0.0, 0.0] for _ in range(k)],
-               "r": [rng.uniform(0.1, 4) for _ in range(k)], "fs_r": [rng.uniform(0.05, 0.7) for _ in range(k)],
+        def spc():
+            t = rng.random()
+            if t < 0.12:
+                return [0.0, 0.0]
+            if t < 0.24:
+                z = rng.choice(SPECIAL_C)
+                return [z.real, z.imag]
+            return [rng.uniform(-4, 4), rng.uniform(-4, 4)]
+        cs_ = [spc() for _ in range(k)]
+        # exact special centres come with exact (dyadic) radii half of the time: the circle is then EXACTLY origin-centred / axis-centred
+        rs_ = [rng.choice([1.0, 0.5, 2.0, 0.25]) if (rng.random() < (0.5 if (c_[0] == 0.0 or c_[1] == 0.0) else 0.1)) else rng.uniform(0.1, 4) for c_ in cs_]
+        yield {"c": cs_,
+               "r": rs_,
+               "shape": rng.choice([[], [3], [2, 3], [2, 2], [3, 3], [2, 1, 3], [1], [1, 1]]), "fs_r": [rng.uniform(0.05, 0.7) for _ in range(k)],
                "scalar": k == 1 and rng.random() < 0.4,
                "M": [[rng.gauss(0, 1), rng.gauss(0, 1)] for _ in range(4)],
                "samples": [[rng.gauss(0, 3), rng.gauss(0, 3)] for _ in range(40)]}
@@ -501,7 +530,9 @@ def run_dsk(inp):
         cfd = np.asarray(comp.fs_diameter(), float)
         res["complement_fs_diameter"] = err(cfd, math.pi - fd2)
         def _aff(pz):
-            return None if abs(pz[0]) < 1e-12 * max(1.0, abs(pz[1])) else pz[1] / pz[0]
+            if not np.all(np.isfinite(pz)):
+                return complex("nan")
+            return None if abs(pz[0]) < 1e-12 * _bi.max(1.0, abs(pz[1])) else pz[1] / pz[0]
         res["complement_fs_centre"] = max(abs(fs_dist(b, _aff(cc)) - f / 2) for row, cc, f in zip(bd2, cfc, cfd) for b in row)
         # the same disk from other centre coordinates
         sph = np.asarray(CP.CP1Point(c, coords="cx_affine").spherical_coords(), float)
@@ -509,6 +540,26 @@ def run_dsk(inp):
             dd = CP.CP1Disk(cdat, r, center_coords=cname)
             cc_, rr_ = dd.circle_parameters()
             res["centre_coords_" + cname] = max(err(np.asarray(cc_, float), np.stack([c.real, c.imag], -1)), err(np.asarray(rr_, float), r))
+        # composite shapes with 0, 1, 2, 3 batch axes, square and non-square: every query equals the flat one, reshaped
+        shp = tuple(inp.get("shape", [3]))
+        n_ = int(np.prod(shp)) if shp else 1
+        rs_ = np.random.default_rng(len(inp["samples"]) + n_)
+        cs = (np.resize(c, n_) + np.arange(n_) * 0.125).reshape(shp) if shp else (c[0] + 0j)
+        rr = (np.resize(r, n_) + np.arange(n_) * 0.0625).reshape(shp) if shp else float(r[0])
+        dsh = CP.CP1Disk(cs, rr)
+        dfl = CP.CP1Disk(np.asarray(cs).reshape(-1), np.asarray(rr, float).reshape(-1))
+        def _cmp(fa, fb):
+            a_, b_ = fa(), fb()
+            return err(np.asarray(a_, float).reshape(-1), np.asarray(b_, float).reshape(-1)) if np.asarray(a_).size == np.asarray(b_).size else float("inf")
+        res["shape_ok"] = 0.0 if tuple(dsh.shape) == shp else 1.0
+        res["shape_circle_centre"] = _cmp(lambda: dsh.circle_parameters()[0], lambda: dfl.circle_parameters()[0])
+        res["shape_circle_radius"] = _cmp(lambda: dsh.circle_parameters()[1], lambda: dfl.circle_parameters()[1])
+        res["shape_circle_shapes"] = 0.0 if (np.asarray(dsh.circle_parameters()[0]).shape == shp + (2,) and np.asarray(dsh.circle_parameters()[1]).shape == shp) else 1.0
+        res["shape_inside"] = _cmp(lambda: dsh.center_inside(), lambda: dfl.center_inside())
+        if shp:
+            res["shape_fs_diameter"] = _cmp(lambda: dsh.fs_diameter(), lambda: dfl.fs_diameter())
+            res["shape_complement_inside"] = _cmp(lambda: dsh.complement().center_inside(), lambda: dfl.complement().center_inside())
+            res["shape_contains"] = _cmp(lambda: dsh.contains(CP.CP1Disk(cs, np.asarray(rr) * 0.5)), lambda: dfl.contains(CP.CP1Disk(np.asarray(cs).reshape(-1), np.asarray(rr).reshape(-1) * 0.5)))
         c2 = comp.complement()
         res["complement_twice"] = 0.0 if proj_close(c2.proj_data, d.proj_data, 1e-8) and np.all(c2.center_inside()) else 1.0
     return res
@@ -649,7 +700,9 @@ def judge_fs(inp, obs, lr):
 def gen_hist(rng, n):
     for _ in range(n):
         k = rng.choice([2, 3, 4])
-        mk = lambda: {"c": [rng.uniform(-3, 3), rng.uniform(-3, 3)], "r": rng.uniform(0.2, 3.0)}
+        def mk():
+            z = rng.choice(SPECIAL_C) if rng.random() < 0.2 else complex(rng.uniform(-3, 3), rng.uniform(-3, 3))
+            return {"c": [z.real, z.imag], "r": rng.uniform(0.2, 3.0) if rng.random() > 0.1 else 1.0}
         disks = [mk() for _ in range(k)]
         other = [mk() for _ in range(k)]
         steps = []
@@ -662,7 +715,7 @@ def gen_hist(rng, n):
             elif c < 0.78:
                 steps.append({"op": "inplace", "i": rng.randrange(k), "disk": mk()})
             else:
-                steps.append({"op": rng.choice(["transform", "copy", "flatten", "complement", "mutate_returned", "other", "set"]),
+                steps.append({"op": rng.choice(["transform", "copy", "flatten", "complement", "mutate_returned", "other", "set", "inv_then_product"]),
                               "M": [[rng.gauss(0, 1), rng.gauss(0, 1)] for _ in range(4)]})
         steps.append({"op": "query", "what": "circle"})
         steps.append({"op": "query", "what": rng.choice(["contains", "intersects", "fs"])})
@@ -732,6 +785,19 @@ def run_hist(inp):
                 D_ = P.Transformation(Mh) @ D_                    # continue with the IMAGE
                 if not np.array_equal(keep, Mh):
                     res["matrix_kept"] = 1.0
+        elif st["op"] == "inv_then_product":
+            Ma = np.array([[complex(*st["M"][0]), complex(*st["M"][1])], [complex(*st["M"][2]), complex(*st["M"][3])]])
+            Mb = np.array([[1.0, 0.5j], [0.25, 1.5]]) + 0.1 * Ma
+            if abs(np.linalg.det(Ma)) > 0.3 and abs(np.linalg.det(Mb)) > 0.3:
+                A_, B_ = P.Transformation(Ma), P.Transformation(Mb)
+                B_.inv(); A_.inv(); (B_ @ D_).circle_parameters()       # inverses / queries on the factors first
+                for C_ in (A_ @ B_, B_ @ A_):
+                    Cf = P.Transformation(np.array(C_.proj_data, copy=True))
+                    e = max(err(_ri(C_.inv().proj_data), _ri(Cf.inv().proj_data)),
+                            err(_ri((C_.inv() @ C_).proj_data / (C_.inv() @ C_).proj_data[..., :1, :1]), _ri(np.eye(2))))
+                    if e > worst:
+                        worst, where = e, [n_, "inv_then_product"]
+                D_ = (A_ @ B_).inv() @ ((A_ @ B_) @ D_)
         elif st["op"] == "copy":
             from copy import copy as _copy
             D_ = _copy(D_)
